@@ -7,6 +7,10 @@ From Coq Require Import Lia.
 Local Open Scope N_scope.
 Open Scope list_scope.
 
+(* is the path of these steps a value group (may select several values)? *)
+Definition rstep_vg (x : rstep) : bool := match x with RPlain s => step_vg s | RRec _ => true end.
+Definition steps_vg (steps : list rstep) : bool := existsb rstep_vg steps.
+
 Section AggExec.
   Variable cfg : config.
   Variable parse_float : string -> option num.
@@ -14,6 +18,13 @@ Section AggExec.
   Notation execute := (execute cfg parse_float regex_ok).
   Notation exec_action := (exec_action cfg parse_float regex_ok).
   Notation plainl := (Forall (fun kb : kind * basic => plain_kind (fst kb))).
+
+  Lemma pres_vg steps : any_vg (pres cfg steps) = steps_vg steps.
+  Proof.
+    induction steps as [|x r IH]; [reflexivity|]. unfold pres. cbn [flat_map steps_vg existsb]. unfold any_vg in *. rewrite existsb_app.
+    unfold pres in IH. rewrite IH. destruct x as [s|s]; cbn [rstep_pre existsb snd rstep_vg pre_basic pre_basic_vg rec_basic mk_basic vgroup orb]; [rewrite orb_false_r|]; reflexivity.
+  Qed.
+
 
   Definition agg_known (g : list N) : bool := negb (mem (text_of g) (cfg_filters cfg)) && mem (text_of g) (cfg_aggs cfg).
   Definition agg_basic (g : list N) : basic := mk_basic (text_of (fun_text g)) false (cfg_accessor cfg).
